@@ -388,9 +388,10 @@ def increment(repo, run):
     names = [e.id if isinstance(e, ast.Name) else None for e in tgt.elts] if isinstance(tgt, ast.Tuple) else []
     dstate_name = names[1] if len(names) == 3 else None
     # compute_step arguments: same stage array in and out, own table
-    a = cs_assign.value.args
-    okargs = len(a) == 8 and [canon.text(x) for x in a[:7]] == ["rhs", "t0", "y0", "h", "self.stage_values", "self.stage_values",
-                                                              "self.tableau_intermediate"]
+    from ..front import positional
+    a = positional(cs_assign.value, repo.get(RKM, "compute_step"), 8)
+    okargs = all(x is not None for x in a[:8]) and [canon.text(x) for x in a[:7]] == ["rhs", "t0", "y0", "h", "self.stage_values", "self.stage_values",
+                                                                                       "self.tableau_intermediate"]
     run.judged(rid, "compute_step called with (rhs, t0, y0, h, stages, stages, tableau_intermediate, constants)", ok=okargs)
     if not okargs:
         run.report("C02.3", ITY, cs_assign.value, "compute_step is not called with (rhs, t0, y0, h, self.stage_values, self.stage_values, "
